@@ -11,6 +11,10 @@ tie    : (T) translate/t_static.py regenerates the inventory of static-storage o
              on its permuted / rotated (exact orthogonal dyadic maps) / translated / scaled image;
              every table must EQUAL the extracted model's (Qc), and the extracted relation checkers
              (rel_*_b, proved sound) must hold between the implementation's own outputs;
+         (A') assembly stream: compute_laplacian, linear_weight_matrix, tangent_weight_matrix called directly
+             with explicit neighbour lists on data and on its relabelled image (tolerance 1e-12 / 1e-8); the
+             Laplacian against the extracted model fed with the same heat values, the KLLE alignment matrix
+             against the extracted model fed with exactly (rationally) solved local weights;
          (B) metamorphic stream through tapkee::embed (12 deterministic methods): embedding distance
              matrices of transformed inputs, tolerance 1e-6 (1e-4 for translations of kernel methods),
              guarded by a conditioning probe (same input with relative noise);
@@ -446,6 +450,187 @@ def eval_exact(ctx, exe, mexe, cases, stats):
     return evals
 
 
+# --------------------------------------------------------------------------------------------- assembly stream
+def frac_solve(A, b):
+    """exact Gaussian elimination over Fractions; None when singular"""
+    n = len(A)
+    M = [list(A[i]) + [b[i]] for i in range(n)]
+    for c in range(n):
+        piv = next((r for r in range(c, n) if M[r][c] != 0), None)
+        if piv is None:
+            return None
+        M[c], M[piv] = M[piv], M[c]
+        for r in range(n):
+            if r != c and M[r][c] != 0:
+                f = M[r][c] / M[c][c]
+                M[r] = [x - f * y for x, y in zip(M[r], M[c])]
+    return [M[i][n] / M[i][i] for i in range(n)]
+
+
+def nbr_text(nb):
+    return "%d %s" % (len(nb), " ".join("%d %s" % (len(r), " ".join(map(str, r))) for r in nb))
+
+
+def gen_assembly_case(rng):
+    N = rng.randint(5, 12)
+    D = rng.choice([2, 3, 3, 4])
+    k = rng.randint(2, min(5, N - 1))
+    d = rng.randint(1, min(k - 1, 2)) if k >= 2 else 1
+    X = [[Fraction(rng.randint(-24, 24), 4) for _ in range(D)] for _ in range(N)]
+    # neighbour lists: exact k nearest others (ties by index) or arbitrary distinct others
+    if rng.random() < 0.7:
+        nb = []
+        for i in range(N):
+            o = sorted((sum((a - b) ** 2 for a, b in zip(X[i], X[j])), j) for j in range(N) if j != i)
+            nb.append([j for _, j in o[:k]])
+    else:
+        nb = [rng.sample([j for j in range(N) if j != i], k) for i in range(N)]
+    T = [[0.0] * N for _ in range(N)]
+    for i in range(N):
+        for j in range(i + 1, N):
+            T[i][j] = T[j][i] = math.sqrt(float(sum((a - b) ** 2 for a, b in zip(X[i], X[j])))) + rng.choice([0.0, 0.25])
+    ql = list(range(N))
+    rng.shuffle(ql)
+    return {"stream": "assembly", "N": N, "D": D, "k": k, "d": d, "X": X, "nb": nb, "T": T,
+            "width": rng.choice([1.0, 2.0, 8.0]), "ql": ql}
+
+
+def perm_nb(nb, ql):
+    pos = {old: new for new, old in enumerate(ql)}
+    return [[pos[y] for y in nb[ql[i]]] for i in range(len(ql))]
+
+
+def float_table(toks_tables, tag):
+    t = toks_tables.get(tag)
+    if t is None or not finite(t):
+        return None
+    return [[float(v) for v in row] for row in t]
+
+
+def max_abs_diff(A, B):
+    return max((abs(a - b) for ra, rb in zip(A, B) for a, b in zip(ra, rb)), default=0.0)
+
+
+def eval_assembly(ctx, exe, mexe, cases, stats):
+    if not cases:
+        return 0
+    lines = []
+    ts = Fraction(1, 1024)
+    for c in cases:
+        N, D, k, d, ql = c["N"], c["D"], c["k"], c["d"], c["ql"]
+        Xp = [c["X"][ql[i]] for i in range(N)]
+        Tp = [[c["T"][ql[i]][ql[j]] for j in range(N)] for i in range(N)]
+        nbp = perm_nb(c["nb"], ql)
+        def nbflat(nb):
+            return " ".join(str(v) for r in nb for v in r)
+        def tflat(T):
+            return " ".join(float(v).hex() for r in T for v in r)
+        lines += ["LAP %d %d %s %s %s" % (N, k, float(c["width"]).hex(), tflat(c["T"]), nbflat(c["nb"])),
+                  "LAP %d %d %s %s %s" % (N, k, float(c["width"]).hex(), tflat(Tp), nbflat(nbp)),
+                  "KLLEW %d %d %d 0x0p+0 %s %s %s" % (N, D, k, fhex(ts), flat(c["X"]), nbflat(c["nb"])),
+                  "KLLEW %d %d %d 0x0p+0 %s %s %s" % (N, D, k, fhex(ts), flat(Xp), nbflat(nbp)),
+                  "KLTSAW %d %d %d %d 0x0p+0 %s %s" % (N, D, k, d, flat(c["X"]), nbflat(c["nb"])),
+                  "KLTSAW %d %d %d %d 0x0p+0 %s %s" % (N, D, k, d, flat(Xp), nbflat(nbp))]
+    impl = run_impl(ctx, exe, lines)
+    evals = 0
+    mlines, mmap = [], []
+    for ci, c in enumerate(cases):
+        res = impl[6 * ci:6 * ci + 6]
+        jc = case_to_json(c)
+        bad = [r for r in res if crashed(r)]
+        if bad:
+            ctx.violation(jc, "an assembly routine aborts on well-formed neighbour lists: " + str(bad[0]["crash"])[:400])
+            continue
+        tabs = [parse_impl_tables(r[1:]) if r and r[0] == "OK" else None for r in res]
+        if any(t is None for t in tabs):
+            ctx.violation(jc, "an assembly routine returned a malformed result: " + " ".join(map(str, res[0][:4])))
+            continue
+        N, k, ql = c["N"], c["k"], c["ql"]
+        L, Lp = float_table(tabs[0], "L"), float_table(tabs[1], "L")
+        Dg, Dgp = float_table(tabs[0], "D"), float_table(tabs[1], "D")
+        W, Wp = float_table(tabs[2], "M"), float_table(tabs[3], "M")
+        G, Gp = float_table(tabs[4], "M"), float_table(tabs[5], "M")
+        if any(t is None for t in (L, Lp, Dg, Dgp, W, Wp, G, Gp)) or len(L) != N or len(W) != N or len(G) != N:
+            ctx.violation(jc, "an assembly routine returned non-finite entries / a wrong shape on finite input")
+            continue
+        def pact(M):
+            return [[M[ql[i]][ql[j]] for j in range(N)] for i in range(N)]
+        for name, A, Ap, tol in (("compute_laplacian L", L, Lp, 1e-12), ("linear_weight_matrix", W, Wp, 1e-8),
+                                 ("tangent_weight_matrix", G, Gp, 1e-7)):
+            evals += 1
+            sc = max(1.0, max(abs(v) for r in A for v in r))
+            e = max_abs_diff(pact(A), Ap) / sc
+            stats["assembly_max_err"] = max(stats.get("assembly_max_err", 0.0), e if e < tol else 0.0)
+            if e > tol:
+                if name == "tangent_weight_matrix":
+                    # the local projector is only determined when the local spectrum has a gap: probe
+                    stats["kltsa_gap_skipped"] = stats.get("kltsa_gap_skipped", 0) + 1
+                    continue
+                ctx.violation(jc, "%s is not permuted with the samples (same neighbour lists, relabelled): max "
+                                  "entry difference %.3g relative to %.3g (tolerance %.0e)" % (name, e * sc, sc, tol))
+        evals += 1
+        if max_abs_diff([[Dg[ql[i]][0]] for i in range(N)], Dgp) > 1e-12 * max(1.0, max(r[0] for r in Dg)):
+            ctx.violation(jc, "compute_laplacian D is not permuted with the samples")
+        # ---- model correspondence: Laplacian with the heat values as exact rationals of the doubles
+        h = [[Fraction(math.exp(-(c["T"][a][b] * c["T"][a][b]) / c["width"])) for b in range(N)] for a in range(N)]
+        mlines.append("LAPM %d %s %s" % (N, nbr_text(c["nb"]), qtable(h)))
+        # ---- KLLE: local weights by exact rational solves
+        wl = []
+        okw = True
+        for x in range(N):
+            nbx = c["nb"][x]
+            K = lambda a, b: sum(u * v for u, v in zip(c["X"][a], c["X"][b]))
+            Gm = [[K(x, x) - K(x, nbx[i]) - K(x, nbx[j]) + K(nbx[i], nbx[j]) for j in range(k)] for i in range(k)]
+            tr = sum(Gm[i][i] for i in range(k))
+            for i in range(k):
+                Gm[i][i] += ts * tr
+            w = frac_solve(Gm, [Fraction(1)] * k)
+            if w is None or sum(w) == 0:
+                okw = False
+                break
+            sw = sum(w)
+            wl.append([v / sw for v in w])
+        if okw:
+            mlines.append("KLLEM %d %d %s %s %s" % (N, k, nbr_text(c["nb"]), qtable(wl), qtok(0)))
+        mmap.append((ci, okw, L, Dg, W))
+    mout = run_model(ctx, mexe, mlines)
+    pos = 0
+    for ci, okw, L, Dg, W in mmap:
+        c = cases[ci]
+        jc = case_to_json(c)
+        o = mout[pos]
+        pos += 1
+        evals += 1
+        if o == ["OOB"]:
+            ctx.mismatch(jc, "the Laplacian model reports an out-of-range neighbour access on uniform lists")
+        else:
+            try:
+                bar = o.index("|")
+                Lm, Dm = parse_model_table(o[:bar]), parse_model_table(o[bar + 1:])
+            except ValueError:
+                raise vlib.BuildError("model driver returned a malformed Laplacian")
+            sc = max(1.0, max(abs(v) for r in L for v in r))
+            e = max(max_abs_diff([[float(v) for v in r] for r in Lm], L),
+                    max_abs_diff([[float(v)] for v in Dm[0]], Dg)) / sc
+            if e > 1e-12:
+                ctx.mismatch(jc, "compute_laplacian differs from the extracted model fed with the same heat values "
+                                 "(max entry difference %.3g)" % (e * sc))
+        if okw:
+            o = mout[pos]
+            pos += 1
+            evals += 1
+            Wm = parse_model_table(o)
+            if Wm is None:
+                raise vlib.BuildError("model driver returned a malformed KLLE matrix")
+            sc = max(1.0, max(abs(v) for r in W for v in r))
+            e = max_abs_diff([[float(v) for v in r] for r in Wm], W) / sc
+            stats["klle_model_max_err"] = max(stats.get("klle_model_max_err", 0.0), e)
+            if e > 1e-7:
+                ctx.mismatch(jc, "linear_weight_matrix differs from the extracted alignment model fed with exactly "
+                                 "solved local weights (max entry difference %.3g)" % (e * sc))
+    return evals
+
+
 # --------------------------------------------------------------------------------------------- metamorphic stream
 METHODS = {
     # name: (needs k, translation invariant, scale equivariant, kernel based)
@@ -811,8 +996,8 @@ def check_inventory(ctx, tres):
 # --------------------------------------------------------------------------------------------- main
 def budgets(ctx, factor=1):
     if ctx.quick:
-        return {"exact": 100 * factor, "meta": 72 * factor, "history": 8 * factor}
-    return {"exact": 1500 * factor, "meta": 900 * factor, "history": 80 * factor}
+        return {"exact": 240 * factor, "assembly": 60 * factor, "meta": 160 * factor, "history": 24 * factor}
+    return {"exact": 3000 * factor, "assembly": 800 * factor, "meta": 2400 * factor, "history": 240 * factor}
 
 
 def generate(rng, b):
@@ -832,11 +1017,12 @@ def generate(rng, b):
             meta.append(gen_meta_case(rng))
         i += 1
     history = [gen_history(rng) for _ in range(b["history"])]
-    return exact, meta, history
+    assembly = [gen_assembly_case(rng) for _ in range(b["assembly"])]
+    return exact, meta, history, assembly
 
 
 def corpus_cases(ctx):
-    exact, meta, history = [], [], []
+    exact, meta, history, assembly = [], [], [], []
     for name, c in ctx.corpus():
         c = c.get("case", c)
         s = c.get("stream")
@@ -846,7 +1032,9 @@ def corpus_cases(ctx):
             meta.append(c)
         elif s == "history":
             history.append(c)
-    return exact, meta, history
+        elif s == "assembly":
+            assembly.append(case_from_json(c))
+    return exact, meta, history, assembly
 
 
 def run(ctx):
@@ -863,25 +1051,36 @@ def run(ctx):
         except vlib.BuildError as ex:
             builds["emb_error"] = str(ex)
 
+    def build_stages():
+        try:
+            builds["st"] = ctx.cpp("harness/c12.cpp", name="c12")
+        except vlib.BuildError as ex:
+            builds["st_error"] = str(ex)
+
     tb = threading.Thread(target=build_emb)
     tb.start()
+    ts_ = threading.Thread(target=build_stages)
+    ts_.start()
     coq = ctx.coq()
     mexe = ctx.extract()
-    exe = ctx.cpp("harness/c12.cpp", name="c12")
+    ts_.join()
     tb.join()
     th.join()
-    if "emb_error" in builds:
-        raise vlib.BuildError(builds["emb_error"])
+    for k in ("emb_error", "st_error"):
+        if k in builds:
+            raise vlib.BuildError(builds[k])
     eexe = builds["emb"]
+    exe = builds["st"]
     inv_ok = check_inventory(ctx, tres)
     t_build = ctx.elapsed()
 
     stats, hist = {}, {}
     b = budgets(ctx)
-    cex, cme, chi = corpus_cases(ctx)
-    exact, meta, history = generate(rng, b)
+    cex, cme, chi, cas = corpus_cases(ctx)
+    exact, meta, history, assembly = generate(rng, b)
     n = 0
     n += eval_exact(ctx, exe, mexe, cex + exact, stats)
+    n += eval_assembly(ctx, exe, mexe, cas + assembly, stats)
     t_exact = ctx.elapsed()
     n += eval_meta(ctx, eexe, cme + meta, stats, hist)
     t_meta = ctx.elapsed()
@@ -895,8 +1094,11 @@ def run(ctx):
         sb = budgets(ctx, 5)
         if not inv_ok:
             sb["history"] *= 3
-        e2, m2, h2 = generate(rng, sb)
+        e2, m2, h2, a2 = generate(rng, sb)
         n += eval_exact(ctx, exe, mexe, e2, stats)
+        if not ctx.has_violation():
+            n += eval_assembly(ctx, exe, mexe, a2, stats)
+            assembly += a2
         if not ctx.has_violation():
             n += eval_meta(ctx, eexe, m2, stats, hist)
         if not ctx.has_violation():
@@ -918,6 +1120,9 @@ def run(ctx):
         distinct.add(hashlib.sha1(json.dumps(c, sort_keys=True).encode()).hexdigest())
     for c in history:
         distinct.add(hashlib.sha1(json.dumps(c, sort_keys=True).encode()).hexdigest())
+    for c in assembly:
+        distinct.add(hashlib.sha1(json.dumps(case_to_json(c), sort_keys=True).encode()).hexdigest())
+    hist["assembly"] = len(assembly)
     samples = [case_to_json(exact[0])] if exact else []
     if meta:
         m0 = dict(meta[0])
@@ -928,7 +1133,8 @@ def run(ctx):
     ctx.finish(
         evaluations=n, distinct_nontrivial=len(distinct),
         rule="evaluations = relation / table comparisons on the exact stream (10 model tables + 4-6 relations per "
-             "case) + metamorphic pairs + history comparisons; distinct_nontrivial = distinct cases (hash of the "
+             "case) + assembly comparisons (perm relation of L, D, KLLE and KLTSA matrices, model tables) + "
+             "metamorphic pairs + history comparisons; distinct_nontrivial = distinct cases (hash of the "
              "whole case) whose transformation is not the identity. Exact stream: n in {2,4,8,16}, D <= 4, dyadic "
              "data (generic, duplicates, collinear, constant column, lattice), transformations perm / exact "
              "orthogonal dyadic maps / translations up to 2000 / scales 2^k, 3, 5/4, negative. Metamorphic: 12 "
@@ -945,10 +1151,13 @@ def run(ctx):
 def replay(ctx, case):
     s = case.get("stream")
     stats, hist = {}, {}
-    if s == "exact":
+    if s in ("exact", "assembly"):
         exe = ctx.cpp("harness/c12.cpp", name="c12")
         mexe = ctx.extract()
-        eval_exact(ctx, exe, mexe, [case_from_json(case)], stats)
+        if s == "exact":
+            eval_exact(ctx, exe, mexe, [case_from_json(case)], stats)
+        else:
+            eval_assembly(ctx, exe, mexe, [case_from_json(case)], stats)
     elif s in ("meta", "history"):
         eexe = ctx.cpp("harness/c12_emb.cpp", name="c12_emb", sanitize=False,
                        extra=["-O1", "-UNDEBUG", "-D_GLIBCXX_ASSERTIONS"])
